@@ -90,6 +90,7 @@ func NewBlankState() *State {
 func (s *State) Reset() {
 	s.env = s.rootEnv
 	s.depth = 0
+	s.macroDepth = 0
 	s.rootEnv.ReleaseAllRegisters() // of the top level loops the panic went through.
 	if s.outDepth > 0 {
 		// the panic happened inside function call(s) capturing the output: back to the real writer.
